@@ -584,6 +584,7 @@ func runC20(c *Check) {
 	rulePoppedNotDiscarded(c, p, g, fnb)
 	c.Doc("C20-R8", "= C09-R3 on the retrieval helper the scan uses: Success only after GetIDs succeeded and every chunk was read; a failed Get is StatusError (never NotFound / HeightFromFuture, which the scan moves past).")
 	ruleRetrieveHelper(c, c.Mod(ModRoot), "C20-R8")
+	ruleHelperSequential(c, c.Mod(ModRoot), "C20-R12")
 	c.MinInstances("C20-R8", 4)
 	c.MinInstances("C20-R1", 1)
 	c.MinInstances("C20-R7", 1)
